@@ -40,11 +40,11 @@ def find_check(prop):
 
 # ---------------------------------------------------------------- workers
 def _worker(args):
-    modname, desc, t_end = args
+    modname, desc, t_end, runner_pid = args
     try:
         mod = load_check(modname)
         from .result import Deadline
-        res = mod.run_shard(desc, Deadline(t_end))
+        res = mod.run_shard(desc, Deadline(t_end, runner_pid))
         return ('ok', res)
     except BaseException as e:  # harness error inside a worker
         return ('err', ''.join(traceback.format_exception(type(e), e, e.__traceback__)), desc)
@@ -55,13 +55,13 @@ def run_pool(modname, shard_descs, t_end):
     total = Result()
     errors = []
     if NPROC <= 1 or len(shard_descs) <= 1:
-        outs = [_worker((modname, d, t_end)) for d in shard_descs]
+        outs = [_worker((modname, d, t_end, None)) for d in shard_descs]
     else:
         # multiprocessing.Pool, not ProcessPoolExecutor: in CPython 3.12.1 the executor's max_tasks_per_child
         # never replaces retired workers (gh-115634) and a run with many shards hangs.
         ctx = mp.get_context('forkserver')
         with ctx.Pool(processes=min(NPROC, len(shard_descs)), maxtasksperchild=40) as pool:
-            outs = pool.map(_worker, [(modname, d, t_end) for d in shard_descs], chunksize=1)
+            outs = pool.map(_worker, [(modname, d, t_end, os.getpid()) for d in shard_descs], chunksize=1)
     for o, d in zip(outs, shard_descs):  # shard order: deterministic merge
         if o[0] == 'ok':
             for g in o[1].fail_groups.values():
